@@ -19,7 +19,7 @@ pub struct C16;
 
 pub const EXHAUSTIVE: u64 = 54 + 54 * 54 + 54 * 54 * 54;
 
-fn word(t: &mut Tape) -> String { (*t.pick(DATA, &["de_dust2", "cp_badlands", "x", "valve", "tf", "my server", "1.0.0.0", "10.1.2.3", "a.b", "Ωmega"])).to_string() }
+fn word(t: &mut Tape) -> String { (*t.pick(DATA, &["de_dust2", "cp_badlands", "x", "valve", "tf", "my server", "1.0.0.0", "10.1.2.3", "a.b", "Ωmega", ""])).to_string() }
 
 /// Filter of kind `k` (0..18) with a value from small pools, plus its (key, value) per the
 /// Master Server Query Protocol.
@@ -325,6 +325,7 @@ impl Prop for C16 {
         // whose low or high byte is 0): six zero bytes in a row then occur across entry boundaries without
         // any entry being the 0.0.0.0:0 terminator
         let zero_rich = t.draw(CFG, 5) == 0;
+        let repeats = !zero_rich && t.draw(CFG, 4) == 0;
         let mut pages: Vec<Vec<(Ipv4Addr, u16)>> = Vec::new();
         for _ in 0 .. npages {
             let n = match t.draw(DATA, 6) {
@@ -348,6 +349,14 @@ impl Prop for C16 {
                         2 => (Ipv4Addr::new(0, 0, 0, c), 256),
                         _ => (Ipv4Addr::new(c, 0, 0, 0), 80),
                     });
+                    continue;
+                }
+                // a server may be listed more than once - but never where it would become a seed, nor may a
+                // seed be repeated: the protocol is stateless, the seed alone tells the master where to go on
+                let last_of_pages: Vec<(Ipv4Addr, u16)> = pages.iter().filter_map(|pg| pg.last().copied()).collect();
+                let earlier: Vec<(Ipv4Addr, u16)> = pages.iter().flatten().copied().filter(|a| !last_of_pages.contains(a)).collect();
+                if repeats && p.len() + 1 < n && !earlier.is_empty() && t.draw(DATA, 6) == 0 {
+                    p.push(earlier[t.draw(DATA, earlier.len() as u64) as usize]);
                     continue;
                 }
                 p.push((Ipv4Addr::from(0x0a00_0000 + counter / 3), 27000 + (counter % 3) as u16 + (counter % 7 == 0) as u16 * 100));
